@@ -6561,3 +6561,99 @@ def fuse_collect_into_comprehension(fn):
                 done = True
                 i = max(0, i - 1)
     return done
+
+
+def sentinel_get_tests(tree):
+    """after `v = D.get(k, SENTINEL)` (SENTINEL a module-level `object()`)
+    and until v is bound again, `v is SENTINEL` says `k not in D`: the tests
+    are spelled that way (D a plain name that is not edited in between)"""
+    sent = set()
+    for st in tree.body:
+        if isinstance(st, ast.Assign) and len(st.targets) == 1 and \
+                isinstance(st.targets[0], ast.Name) and isinstance(
+                    st.value, ast.Call) and norm(st.value.func) == "object" \
+                and not st.value.args:
+            sent.add(st.targets[0].id)
+    if not sent:
+        return False
+    done = [False]
+
+    def rewrite(expr, live):
+        class T(ast.NodeTransformer):
+            def visit_Compare(self, node):
+                self.generic_visit(node)
+                if len(node.ops) == 1 and isinstance(
+                        node.ops[0], (ast.Is, ast.IsNot)) and isinstance(
+                        node.left, ast.Name) and node.left.id in live and \
+                        isinstance(node.comparators[0], ast.Name) and \
+                        node.comparators[0].id == live[node.left.id][2]:
+                    D, k, _ = live[node.left.id]
+                    done[0] = True
+                    return ast.copy_location(ast.Compare(
+                        left=clone(k), ops=[ast.NotIn() if isinstance(
+                            node.ops[0], ast.Is) else ast.In()],
+                        comparators=[ast.Name(id=D, ctx=ast.Load())]), node)
+                return node
+
+            def visit_Lambda(self, node):
+                return node
+        return T().visit(expr)
+
+    def stored_in(st):
+        return {n.id for n in ast.walk(st) if isinstance(n, ast.Name)
+                and isinstance(n.ctx, (ast.Store, ast.Del))}
+
+    def edits(st, D):
+        for n in ast.walk(st):
+            if isinstance(n, ast.Call) and isinstance(
+                    n.func, ast.Attribute) and isinstance(
+                    n.func.value, ast.Name) and n.func.value.id == D and \
+                    n.func.attr in ("pop", "update", "clear", "setdefault",
+                                    "popitem"):
+                return True
+            if isinstance(n, ast.Subscript) and isinstance(
+                    n.ctx, (ast.Store, ast.Del)) and isinstance(
+                    n.value, ast.Name) and n.value.id == D:
+                return True
+        return False
+
+    def block(stmts, live):
+        for st in stmts:
+            if isinstance(st, (ast.If, ast.While)):
+                st.test = rewrite(st.test, live)
+                block(st.body, dict(live))
+                block(st.orelse, dict(live))
+            elif isinstance(st, (ast.For, ast.With, ast.Try)):
+                for fld in ("body", "orelse", "finalbody"):
+                    block(getattr(st, fld, []) or [], {})
+                for h in getattr(st, "handlers", []) or []:
+                    block(h.body, {})
+            elif isinstance(st, (ast.FunctionDef, ast.ClassDef)):
+                pass
+            else:
+                for fld, val in ast.iter_fields(st):
+                    if isinstance(val, ast.expr) and fld != "targets":
+                        setattr(st, fld, rewrite(val, live))
+            for v in stored_in(st):
+                live.pop(v, None)
+            for v in [v for v, (D, _, _) in live.items() if edits(st, D)
+                      or D in stored_in(st)]:
+                live.pop(v, None)
+            if isinstance(st, ast.Assign) and len(st.targets) == 1 and \
+                    isinstance(st.targets[0], ast.Name) and isinstance(
+                        st.value, ast.Call) and isinstance(
+                        st.value.func, ast.Attribute) and \
+                    st.value.func.attr == "get" and isinstance(
+                        st.value.func.value, ast.Name) and len(
+                        st.value.args) == 2 and not st.value.keywords and \
+                    isinstance(st.value.args[1], ast.Name) and \
+                    st.value.args[1].id in sent and isinstance(
+                        st.value.args[0], ast.Constant):
+                live[st.targets[0].id] = (st.value.func.value.id,
+                                          st.value.args[0],
+                                          st.value.args[1].id)
+    for fn in [n for n in ast.walk(tree) if isinstance(n, ast.FunctionDef)]:
+        block(fn.body, {})
+    if done[0]:
+        ast.fix_missing_locations(tree)
+    return done[0]
